@@ -17,11 +17,11 @@ well-formedness recognisers, Conforms, NotAltered), three uses of TLC:
 import copy, itertools, json, os, random, re, threading, concurrent.futures as cf
 from vlib import Infra, log, read_ndjson
 
-NMENU = 31
+NMENU = 44
 FUZZ_ITEMS = [1, 6, 7, 8, 10, 12, 13, 16, 20]
 # menu items that are or contain a list / leaf-list (EncodingSets.Menu); only used to make sure that some of the
 # larger schemas hold collections next to other nodes, the sized trees themselves come from EncodingSets.SizedTrees
-COLLECTIONS = [13, 14, 15, 16, 17, 23, 25, 27, 28, 29, 30, 31]
+COLLECTIONS = [13, 14, 15, 16, 17, 23, 25, 27, 28, 29, 30, 31, 34, 35, 36, 37, 38, 39, 43, 44]
 # entries per collection in the sized trees: around the thresholds at which sort / hash / buffer strategies change
 SIZES = "{1, 2, 12, 13, 20, 40, 100}"
 SIZES_MANY = "{2, 13, 40}"        # schemas with two and more items
